@@ -113,9 +113,14 @@ func prctl(option uintptr, args ...uintptr) error {
 // seccomp syscall wrapper.
 func seccomp(op uintptr, flags FilterFlag, uargs unsafe.Pointer) error {
 	verifCapture(op, flags, uargs)
-	_, _, e := syscall.Syscall(unix.SYS_SECCOMP, op, uintptr(flags), uintptr(uargs))
+	r, _, e := syscall.Syscall(unix.SYS_SECCOMP, op, uintptr(flags), uintptr(uargs))
 	if e != 0 {
 		return e
+	}
+	if r != 0 && flags&FilterFlagTSync != 0 {
+		// The kernel reports a thread that cannot be synchronized, because it has a
+		// different seccomp filter, by returning its ID. No filter has been installed.
+		return fmt.Errorf("thread %d cannot be synchronized to the filter", r)
 	}
 	return nil
 }
